@@ -210,3 +210,197 @@ pub fn stress_borrow(args: &[u64], out: &mut Out) {
         out.flag(format!("flag is {fin:#x} after all threads released"));
     }
 }
+
+// ------------------------------------------------------------------------------------------
+// Engine 7 / 70: concurrent reservation on a shared &World (C07)
+
+#[derive(Default)]
+struct RState {
+    out: Vec<Vec<u64>>, // observation of each completed call
+    yielder: usize,
+}
+
+pub fn run_reserve(args: &[u64], out: &mut Out) {
+    use hecs::{Entity, World};
+    let (nfree, nlive, k) = (args[0] as usize, args[1] as usize, args[2] as usize);
+    let mut pos = 3;
+    let mut progs: Vec<Vec<(u64, u64)>> = Vec::new();
+    for _ in 0..k {
+        let n = args[pos] as usize;
+        pos += 1;
+        let mut p = Vec::new();
+        for _ in 0..n {
+            p.push((args[pos], args[pos + 1]));
+            pos += 2;
+        }
+        progs.push(p);
+    }
+    let sched = &args[pos..];
+    let mut world = World::new();
+    let hs: Vec<Entity> = (0..nfree + nlive).map(|_| world.spawn(())).collect();
+    for h in &hs[..nfree] {
+        world.despawn(*h).unwrap();
+    }
+    let live_before: Vec<Entity> = hs[nfree..].to_vec();
+    let len_before = world.len();
+    let wref: &World = &world;
+    let states: Vec<Rc<RefCell<RState>>> = (0..k).map(|_| Rc::new(RefCell::new(RState::default()))).collect();
+    let all: Rc<RefCell<Vec<Entity>>> = Rc::new(RefCell::new(Vec::new()));
+    set_yield_hook(Some(hook));
+    let mut obs: Vec<u64> = Vec::new();
+    {
+        // SAFETY: the coroutines only use `wref` while `world` is alive and not mutated; they are
+        // dropped at the end of this block
+        let wstatic: &'static World = unsafe { std::mem::transmute(wref) };
+        let mut cos: Vec<Coroutine<(), u32, ()>> = Vec::new();
+        for i in 0..k {
+            let prog = progs[i].clone();
+            let st = states[i].clone();
+            let all = all.clone();
+            cos.push(Coroutine::new(move |yielder: &Yielder<(), u32>, ()| {
+                st.borrow_mut().yielder = yielder as *const Yielder<(), u32> as usize;
+                YIELDER.with(|y| y.set(yielder as *const _));
+                let mut last = Entity::DANGLING;
+                for (op, arg) in prog {
+                    let o = match op {
+                        0 => {
+                            let h = wstatic.reserve_entity();
+                            last = h;
+                            all.borrow_mut().push(h);
+                            vec![1, h.to_bits().into()]
+                        }
+                        1 => {
+                            let v: Vec<Entity> = wstatic.reserve_entities(arg as u32).collect();
+                            if let Some(h) = v.last() {
+                                last = *h;
+                            }
+                            all.borrow_mut().extend(v.iter().copied());
+                            let mut o = vec![v.len() as u64];
+                            o.extend(v.iter().map(|h| -> u64 { h.to_bits().into() }));
+                            o
+                        }
+                        _ => vec![wstatic.contains(last) as u64],
+                    };
+                    st.borrow_mut().out.push(o);
+                }
+            }));
+        }
+        let mut done = vec![false; k];
+        let mut consumed = vec![0usize; k];
+        let mut resume = |cos: &mut Vec<Coroutine<(), u32, ()>>, done: &mut Vec<bool>, i: usize| {
+            if done[i] {
+                return;
+            }
+            let yp = states[i].borrow().yielder;
+            YIELDER.with(|y| y.set(yp as *const Yielder<(), u32>));
+            match cos[i].resume(()) {
+                CoroutineResult::Yield(_) => {}
+                CoroutineResult::Return(()) => done[i] = true,
+            }
+            YIELDER.with(|y| y.set(std::ptr::null()));
+        };
+        for i in 0..k {
+            resume(&mut cos, &mut done, i);
+        }
+        for &t in sched {
+            let t = t as usize;
+            if t >= k {
+                continue;
+            }
+            if done[t] && consumed[t] == states[t].borrow().out.len() {
+                obs.push(0);
+                continue;
+            }
+            resume(&mut cos, &mut done, t);
+            let st = states[t].borrow();
+            if consumed[t] < st.out.len() {
+                let o = &st.out[consumed[t]];
+                obs.push(o.len() as u64);
+                obs.extend(o.iter());
+                consumed[t] += 1;
+            } else {
+                obs.push(0);
+            }
+        }
+        drop(cos);
+    }
+    set_yield_hook(None);
+    out.nums.extend(obs);
+    let all = all.borrow().clone();
+    out.push(all.len() as u64);
+    // oracle: distinct, distinct from live ones, contained
+    let mut seen = std::collections::HashSet::new();
+    for h in &all {
+        let c = world.contains(*h);
+        out.push(c as u64);
+        if !c {
+            out.flag(format!("C07: reserved handle {:?} does not report contains() before the flush", h));
+        }
+        if !seen.insert(*h) {
+            out.flag(format!("C07: handle {:?} was handed out twice", h));
+        }
+        if live_before.iter().any(|l| l.id() == h.id()) {
+            out.flag(format!("C07: reserved handle {:?} shares its id with a live entity", h));
+        }
+    }
+    world.flush();
+    out.push(world.len() as u64);
+    if world.len() as usize != len_before as usize + all.len() {
+        out.flag(format!("C07: len grew from {} to {} for {} reservations", len_before, world.len(), all.len()));
+    }
+    for h in all.iter().chain(live_before.iter()) {
+        let ok = world.entity(*h).is_ok() && world.iter().any(|e| e.entity() == *h);
+        out.push(ok as u64);
+        if !ok {
+            out.flag(format!("C07: {:?} is not a live entity after the flush", h));
+        }
+    }
+}
+
+/// Engine 70: args = threads, reservations per thread, free-list size, seed. Real threads.
+pub fn stress_reserve(args: &[u64], out: &mut Out) {
+    use hecs::{Entity, World};
+    let (threads, per, nfree) = (args[0] as usize, args[1] as usize, args[2] as usize);
+    let mut world = World::new();
+    let hs: Vec<Entity> = (0..nfree + 8).map(|_| world.spawn(())).collect();
+    for h in &hs[..nfree] {
+        world.despawn(*h).unwrap();
+    }
+    let len_before = world.len() as usize;
+    let missing = AtomicU64::new(0);
+    let mut all: Vec<Entity> = Vec::new();
+    std::thread::scope(|s| {
+        let mut js = Vec::new();
+        for t in 0..threads {
+            let (w, missing) = (&world, &missing);
+            js.push(s.spawn(move || {
+                let mut mine = Vec::new();
+                for i in 0..per {
+                    if (i + t) % 4 == 0 {
+                        mine.extend(w.reserve_entities(3));
+                    } else {
+                        mine.push(w.reserve_entity());
+                    }
+                    if !w.contains(*mine.last().unwrap()) {
+                        missing.fetch_add(1, Ordering::SeqCst);
+                    }
+                }
+                mine
+            }));
+        }
+        for j in js {
+            all.extend(j.join().unwrap());
+        }
+    });
+    let mut set = std::collections::HashSet::new();
+    let dups = all.iter().filter(|h| !set.insert(**h)).count() as u64;
+    let notc = missing.load(Ordering::SeqCst) + all.iter().filter(|h| !world.contains(**h)).count() as u64;
+    world.flush();
+    let lenerr = (world.len() as usize != len_before + all.len()) as u64;
+    out.push(dups);
+    out.push(notc);
+    out.push(lenerr);
+    if dups != 0 || notc != 0 || lenerr != 0 {
+        out.flag(format!("C07: real threads: {dups} duplicate handles, {notc} not contained, len mismatch {lenerr}"));
+    }
+}
